@@ -84,6 +84,7 @@ struct R3Monitor {
     w.taps.push_back([this](const WireEv &e) { on_wire(e); });
   }
 
+  std::map<Key, std::pair<uint64_t, int>> early;   // ACK/RST delivered for a mid nothing has been transmitted under yet: (instant, type)
   void on_wire(const WireEv &e) {
     const Bytes &b = e.d->data;
     if (b.size() < 4 || (b[0] >> 6) != 1) return;
@@ -97,6 +98,11 @@ struct R3Monitor {
         r1::Msg mm;
         if (r1::decode_udp(b, mm) != r1::REJECT) tx.token = mm.token;
         tx.is_request = b[1] >= 1 && b[1] < 32;
+        // An ACK/RST with this mid that reached the socket earlier in this very instant (sent by the peer before it could have
+        // seen the message, e.g. a spoofed or mis-numbered one) is read by libcoap right after this first transmission of the
+        // same I/O pass and legitimately concludes it.
+        auto ei = early.find(k);
+        if (ei != early.end() && ei->second.first == e.t_ns) { if (ei->second.second == 2) tx.t_ack = e.t_ns; else tx.t_rst = e.t_ns; w.count("probe.ack_before_first_transmission_same_instant"); }
       } else {
         if (tx.t_resp && e.t_ns > tx.t_resp) violate(tx, k, "tx_after_response", strfmt("request transmitted %.3f ms after its response was delivered", (e.t_ns - tx.t_resp) / 1e6));
         if (tx.bytes != b) violate(tx, k, "not_byte_identical", "retransmission differs from first transmission");
@@ -141,7 +147,7 @@ struct R3Monitor {
       // ACK/RST from d->src to d->dst: closes (node=to, src=d->dst, dst=d->src, mid)
       Key k{e.to, e.d->dst, e.d->src, mid};
       auto it = m.find(k);
-      if (it == m.end()) return;
+      if (it == m.end()) { early[k] = {e.t_ns, type}; return; }     // (see the first-transmission branch)
       Tx &tx = it->second;
       if (tx.nacks || tx.t_ack || tx.t_rst || tx.t_resp) return;   // already concluded
       if (type == 2) { tx.t_ack = e.t_ns; w.count("probe.ack_delivered"); }
